@@ -414,7 +414,7 @@ class Engine:
             v = self.cell_of(st, frame, parse_place(m.group(1))).v
             dst.v = ("discr", v)
             return
-        m = re.match(r"^(Eq|Ne|Lt|Le|Gt|Ge|Mul|Add|Sub|BitAnd|BitOr|MulWithOverflow|AddWithOverflow)\((.*)\)$", rhs)
+        m = re.match(r"^(Eq|Ne|Lt|Le|Gt|Ge|Mul|Add|Sub|Div|Rem|BitAnd|BitOr|MulWithOverflow|AddWithOverflow|SubWithOverflow)\((.*)\)$", rhs)
         if m:
             a, b = split_top(m.group(2))
             va, vb = self.operand(st, frame, a), self.operand(st, frame, b)
@@ -572,13 +572,13 @@ class Engine:
                 bb = m.group(2)
                 continue
             m = re.match(r"^assert\((!?)(.*?), \"(.*)\) -> \[success: (bb\d+)", t)
-            if m and getattr(self, "track_panics", False):
+            if m:
                 # a compiler-inserted check (bounds, overflow, division): the failing side is a panic, execution goes on under the condition
                 v = self.operand(st, frame, m.group(2))
                 if not (isinstance(v, Z) and z3.is_bool(v.e)):
                     raise Unsupported("assert terminator on " + type(v).__name__)
                 cond = z3.Not(v.e) if m.group(1) else v.e
-                if st.feasible(z3.Not(cond)):
+                if getattr(self, "track_panics", False) and st.feasible(z3.Not(cond)):
                     self.panics.append((list(st.pc) + [z3.Not(cond)], "assert: " + m.group(3)[:80], fn.name))
                 st.pc.append(cond)
                 if not st.feasible():
